@@ -3,7 +3,10 @@
 # One line per seed: does the patch still apply, demo clean/patched, suite, check exit code and VIOLATION lines.  Needs /repo's working tree free.
 cd /verif
 mkdir -p scratch
+# usage: seed_sweep.sh [prefix ...]   e.g. seed_sweep.sh C01 C07   (default: all); SEED_FAST=1 skips the repository suite per seed
+PREFIXES="${*:-C}"
 for d in seeded/C*/; do
+  case_ok=0; for p in $PREFIXES; do case "$(basename $d)" in $p*) case_ok=1;; esac; done; [ $case_ok = 1 ] || continue
   sid=$(basename $d); c=${sid%%-*}
   SEED_OUT=/verif/scratch/sweep_$sid.txt tools/seed_verify.sh $sid $c >/dev/null 2>&1
   echo "$sid: $(grep -E 'PATCH DOES NOT APPLY|demo on|stable_pass|^check' scratch/sweep_$sid.txt | tr '\n' ' ' | cut -c1-260)"
